@@ -4,7 +4,6 @@ import (
 	"bytes"
 	"context"
 	"fmt"
-	"io"
 	"time"
 
 	"github.com/streamingfast/dstore"
@@ -89,7 +88,7 @@ func (s *oneBlocksSource) run() error {
 			return fmt.Errorf("unable to create block reader: %w", err)
 		}
 		blk, err := blockReader.Read()
-		if err != nil && err != io.EOF {
+		if err != nil {
 			return fmt.Errorf("block reader failed: %w", err)
 		}
 
